@@ -178,7 +178,8 @@ def build_harness(name, log, tags="verif", race=False):
 def eval_shards(rundir, shards, log, jobs=16, timeout=1500):
     """coqc every cases shard; returns (mismatch indices, errors)."""
     def one(sh):
-        rc, out = run(["timeout", str(timeout), "coqc", "-R", COQ, "Verif", sh], cwd=rundir)
+        # large case terms need a deep stack in coqc's parser/evaluator: lift the stack limit for this process
+        rc, out = run(["bash", "-c", "ulimit -s unlimited 2>/dev/null || ulimit -s 1000000 2>/dev/null; exec timeout %d coqc -R %s Verif %s" % (timeout, COQ, sh)], cwd=rundir)
         if rc != 0:
             return sh, None, out
         m = re.search(r"M\s*=\s*(.*?)\s*:\s*list Z", out, re.S)
